@@ -21,7 +21,7 @@ CLAIMS["C20"] = ("exploration",
     "Frozen font-number -> name table; tolerances 1e-9 relative (one float multiplication) and 1 % (statement).",
     "property-based testing: Hypothesis inputs, algebraic/metamorphic relations as oracle")
 CLAIMS["C12"] = ("exploration",
-    "Exhaustive over the 657 colours (as text and background colour in body matrices and on text components of single-table, multi-section and figure documents) and the 10 fonts on every component, plus Hypothesis-generated documents with random palettes and attribute shapes; oracle resolves every parsed \\cf \\cb \\chcbpat \\brdrcf \\f through the parsed \\colortbl / \\fonttbl and compares with frozen reference tables per sentinel-tagged element. " + _EXPL,
+    "Exhaustive over the 657 colours (as text and background colour in body matrices and on text components of single-table, multi-section and figure documents) and the 10 fonts on every component, plus Hypothesis-generated documents with random palettes and attribute shapes, a fifth of them with a history (rendered before some components had their colours, coloured in place or via model_copy, rendered again); oracle resolves every parsed \\cf \\cb \\chcbpat \\brdrcf \\f through the parsed \\colortbl / \\fonttbl and compares with frozen reference tables per sentinel-tagged element. " + _EXPL,
     _READER + " Frozen colour and font tables (data/*.json, sha256-pinned).",
     "property-based testing: exhaustive colour/font enumeration + Hypothesis palettes, reference-table oracle on independently parsed output")
 CLAIMS["C14"] = ("exploration",
